@@ -710,6 +710,40 @@ func TestC11(t *testing.T) {
 			return peer.Group(peer.VSApp, peer.U32(peer.VendorID, 10415), peer.U32(peer.AuthApp, 1<<31+4))
 		}, ids(1<<31+4, "auth")},
 	)
+	// a server whose dictionary holds only some of the applications (base alone, base plus one
+	// embedded file): applications whose own dictionary is missing are not common ones, whatever
+	// their parents are (Gx and S6a build on credit control, that on NASREQ)
+	alP := append(append([]appAVP{}, al...),
+		appAVP{"Auth(Gx)", func() *refcodec.Node { return peer.U32(peer.AuthApp, 16777238) }, ids(16777238, "auth")},
+		appAVP{"Auth(S6a)", func() *refcodec.Node { return peer.U32(peer.AuthApp, 16777251) }, ids(16777251, "auth")},
+		appAVP{"Auth(NASREQ)", func() *refcodec.Node { return peer.U32(peer.AuthApp, 1) }, ids(1, "auth")},
+		appAVP{"VS{v,Auth(Gx)}", func() *refcodec.Node {
+			return peer.Group(peer.VSApp, peer.U32(peer.VendorID, 10415), peer.U32(peer.AuthApp, 16777238))
+		}, ids(16777238, "auth")},
+		appAVP{"Acct(Gx)", func() *refcodec.Node { return peer.U32(peer.AcctApp, 16777238) }, ids(16777238, "acct")},
+	)
+	var partial []*lib.Ctx
+	for _, px := range contexts(t)[1:] {
+		if strings.Contains(px.Name, "Credit") { // the probe request (CCR, application 4) must be decodable
+			partial = append(partial, px)
+		}
+	}
+	if len(partial) == 0 {
+		t.Fatal("no base+credit-control dictionary context")
+	}
+	rec.Suite("partial-dictionary", len(partial)*len(alP)*2, func(c *ev.Case) {
+		px := partial[c.I%len(partial)]
+		a := (c.I / len(partial)) % len(alP)
+		cc := c11Case{host: true, realm: true, inband: -1, inband2: -1, apps: []int{a}, nAddrs: 1}
+		if c.I/(len(partial)*len(alP)) == 1 {
+			cc.apps = []int{a, (a + 5) % len(alP)}
+		}
+		c.Class("partial-dictionary/%s/napps=%d", px.Name, len(cc.apps))
+		leak := runBubbleWD(t, rec, c, 60*time.Second, func() { runC11(c, px, alP, cc) })
+		if leak != "" && !c.Failed() {
+			c.Fail(ev.Sig{"op": "bubble-leak"}, nil, nil, "goroutines left blocked after the scenario: %s; %s", leak, cc.String(alP))
+		}
+	})
 	al = alX
 	rec.Suite("random", rec.N(2000, 1000000), func(c *ev.Case) {
 		r := c.R
